@@ -47,6 +47,13 @@ pub fn gen_transfer(rng: &mut Rng, from: usize, sw: i32, sh: i32, dw: i32, dh: i
             let y2 = if rng.chance(1, 5) { g(rng, sh) } else { y.saturating_add(rng.range(0, sh + 3)) };
             [x, y, x2, y2]
         }
+        8 | 9 => {
+            // exactly as large as the source (or as the destination), but shifted
+            let (bw, bh) = if rng.chance(1, 2) { (sw, sh) } else { (dw, dh) };
+            let x = rng.range(-2, 2);
+            let y = rng.range(-2, 2);
+            [x, y, x + bw, y + bh]
+        }
         _ => {
             // a block that overlaps the source, with a non-zero origin most of the time
             let x = rng.range(-1, (sw - 1).max(0));
@@ -54,7 +61,14 @@ pub fn gen_transfer(rng: &mut Rng, from: usize, sw: i32, sh: i32, dw: i32, dh: i
             [x, y, rng.range(x + 1, sw + 1).max(x + 1), rng.range(y + 1, sh + 1).max(y + 1)]
         }
     };
-    let dst = if far || rng.chance(1, 3) { [g(rng, dw), g(rng, dh)] } else { [rng.range(-2, (dw - 1).max(0)), rng.range(-2, (dh - 1).max(0))] };
+    let dst = if far || rng.chance(1, 3) {
+        [g(rng, dw), g(rng, dh)]
+    } else if rng.chance(1, 4) {
+        // the corners of the destination
+        [rng.pick(&[0, 0, -1, 1]), rng.pick(&[0, 0, -1, 1])]
+    } else {
+        [rng.range(-2, (dw - 1).max(0)), rng.range(-2, (dh - 1).max(0))]
+    };
     match rng.below(3) {
         0 => Op::CopySurface { from, rect, dst },
         1 => Op::BlendSurface { from, rect, dst, blend: gen_blend(rng, BlendProfile::Uniform) },
@@ -65,7 +79,27 @@ pub fn gen_transfer(rng: &mut Rng, from: usize, sw: i32, sh: i32, dw: i32, dh: i
 pub fn gen_c15(rng: &mut Rng, thorough: bool) -> History {
     let ns = 2 + rng.usize(2);
     let zero_ok = rng.chance(1, 3);
-    let surfaces: Vec<SurfSpec> = (0..ns).map(|_| if thorough && rng.chance(1, 16) { gen_surface_big(rng, false) } else { gen_surface(rng, if thorough { 33 } else { 16 }, zero_ok, false) }).collect();
+    let mut surfaces: Vec<SurfSpec> = (0..ns).map(|_| if thorough && rng.chance(1, 16) { gen_surface_big(rng, false) } else { gen_surface(rng, if thorough { 33 } else { 16 }, zero_ok, false) }).collect();
+    if rng.chance(1, 3) {
+        // equally sized surfaces are the common case in practice (whole-surface copies)
+        let (w, h) = (surfaces[0].w, surfaces[0].h);
+        for s in surfaces.iter_mut().skip(1) {
+            s.w = w;
+            s.h = h;
+            s.pixels = busy_pixels(rng, (w * h) as usize);
+        }
+    }
+    if rng.chance(1, 4) {
+        // sparse content: whole rows of fully transparent pixels
+        for s in surfaces.iter_mut() {
+            let w = s.w.max(1) as usize;
+            for (i, p) in s.pixels.iter_mut().enumerate() {
+                if (i / w) % 2 == 0 || rng.chance(1, 3) {
+                    *p = 0;
+                }
+            }
+        }
+    }
     let mut em = Emit::new(surfaces);
     let n = 2 + rng.usize(if thorough { 18 } else { 9 });
     let draw = DrawCfg::general();
@@ -290,7 +324,7 @@ pub fn gen_c19(rng: &mut Rng, thorough: bool) -> History {
             0 | 1 => Op::Poke32 { idx: rng.usize(npx.max(1)), val: if rng.chance(1, 2) { valid_pixel(rng) } else { rng.next_u32() } },
             2 | 3 => Op::Poke8 { idx: rng.usize((npx * 4).max(1)), val: rng.below(256) as u8 },
             4 => Op::ReadViews,
-            5 | 6 => Op::Restart(rng.below(4) as u8),
+            5 | 6 => Op::Restart(rng.below(6) as u8),
             7 => {
                 // the packing claim is for all component values, premultiplied or not
                 let p = if rng.chance(1, 2) { valid_pixel(rng) } else { rng.next_u32() };
@@ -472,7 +506,20 @@ pub fn run_c19(h: &History, io_dir: &str, st: &mut Stats) -> Outcome {
             }
             Op::Restart(kind) => {
                 st.count("perturbation.restart");
-                if let Some(buf) = p.last_restart_buf.take() {
+                let handed_back = p.last_restart_buf.take();
+                if kind % 6 == 5 {
+                    // rebuilt from a vector cut to two thirds: the rest is zero filled
+                    let keep = model.len() * 2 / 3;
+                    if let Some(buf) = &handed_back {
+                        if *buf != model {
+                            return viol("c19.round-trip", i, format!("restart kind {}: the buffer handed back differs from the pixels: {}", kind, first_diff(buf, &model, w).unwrap_or_default()));
+                        }
+                    }
+                    for m in model[keep..].iter_mut() {
+                        *m = 0;
+                    }
+                }
+                if let Some(buf) = handed_back.filter(|_| kind % 6 != 5) {
                     if buf != model {
                         return viol("c19.round-trip", i, format!("restart kind {}: the buffer handed back differs from the pixels: {}", kind, first_diff(&buf, &model, w).unwrap_or_default()));
                     }
@@ -617,8 +664,15 @@ fn c07_path(rng: &mut Rng, w: i32, h: i32, identity: bool) -> PathSpec {
             0 | 1 => segs.push(Seg::M(F(p.0), F(p.1))),
             2 | 3 | 4 | 5 => segs.push(Seg::L(F(p.0), F(p.1))),
             6 | 7 => {
-                // coincident control points now and then
-                let c = if rng.chance(1, 3) { last } else { (c07_coord(rng, w, identity), c07_coord(rng, h, identity)) };
+                // coincident control points now and then, or control points a few ulps away from
+                // an end point (the extremum of the curve then lies within rounding noise of it)
+                let ulps = |v: f32, k: i32| f32::from_bits((v.to_bits() as i64 + k as i64).max(0) as u32);
+                let c = match rng.below(6) {
+                    0 | 1 => last,
+                    2 => (ulps(p.0, rng.range(-3, 3)), ulps(p.1, rng.range(-3, 3))),
+                    3 => (ulps(last.0, rng.range(-3, 3)), ulps(last.1, rng.range(-3, 3))),
+                    _ => (c07_coord(rng, w, identity), c07_coord(rng, h, identity)),
+                };
                 segs.push(Seg::Q(F(c.0), F(c.1), F(p.0), F(p.1)));
             }
             8 | 9 => {
